@@ -89,7 +89,10 @@ Record inst := {
   i_on_exit : list string;
   i_on_notrans : bool;
   i_dur : list (string * dur);
-  i_keep : list string }.                  (* states for which calc_output returns UNDEF:
+  i_keep : list string;
+  i_on_exit_bad : list string }.           (* states with a (further) on_exit_STATE event whose destination
+                                              does not know the event type: the delivery raises
+                                              EdzedUnknownEvent, which does not stop the simulation *)                  (* states for which calc_output returns UNDEF:
                                               "leave the output unchanged" *)           (* effective duration of the timed states *)
 
 Inductive logent :=
@@ -271,12 +274,14 @@ Definition fsm_event (d : fsmdef) (i : inst) (s0 : fstate) (e : etype) (t : tag)
               match run_exit i s1 cur t with
               | (s2, Some e) => (s2, Some e)
               | (s2, None) =>
-                  (st_log s2 (if str_mem cur (i_on_exit i) then [LOnExit cur (f_out s2)] else []), None)
+                  (st_log s2 (if str_mem cur (i_on_exit i) then [LOnExit cur (f_out s2)] else []),
+                   if str_mem cur (i_on_exit_bad i) then Some EUnknownEvent else None)
               end
           | None => (s1, None)
           end
         else (s1, None) in
       match r with
+      | (s2, Some EUnknownEvent) => (s2, Err EUnknownEvent)   (* the transition is abandoned, nothing else *)
       | (s2, Some k) => (st_abort s2, Err k)
       | (s2, None) =>
           match f_next s2 with
